@@ -5,7 +5,7 @@ from .fieldc import field_params, FIELDS
 from . import ops as opsmod
 
 R12 = "#[verifier::exec_allows_no_decreases_clause]"
-BU = "broadcast use fq_abs, fr_abs, ad_consts, isqrt_spec_ok, curve_axioms, lemma_bytes_val_bound;"
+BU = "broadcast use fq_abs, fr_abs, ad_consts, isqrt_spec_ok, curve_axioms, lemma_bytes_val_bound, comm_ops;"
 
 ENC = "src/ark_curve/encoding.rs"
 SIGN = "src/sign.rs"
@@ -507,7 +507,7 @@ def elligator_unit():
     items = list(stubs) + sign_items()
     items += [dataclasses.replace(it, mode="stub", proved_in="ark_ops", fns=[dataclasses.replace(f, preamble="") for f in it.fns])
               for it in op_items(OPS_P) if it.header == "impl<'a, 'b> Add<&'b Element> for &'a Element"]
-    bu = "broadcast use fq_abs, ad_consts, isqrt_spec_ok, m_ell_on_curve, to_affine_wf;"
+    bu = "broadcast use fq_abs, ad_consts, isqrt_spec_ok, m_ell_on_curve, to_affine_wf, comm_ops;"
     items.append(Item(ELL, "impl Element", [Fn("elligator_map", ensures="repr(r.inner) == to_affine(ell_opt(r_0.val()))", props=("C07", "C06"),
                                                preamble=bu + " assert(on_curve(ell_opt(r_0.val())));")]))
     items.append(Item(ELL, "impl Element", [Fn("hash_to_curve", props=("C07",), preamble=bu,
